@@ -35,8 +35,12 @@ use std::process::exit;
 use syn::spanned::Spanned;
 use syn::visit::Visit;
 
+thread_local! { static CURRENT_FN: std::cell::RefCell<Option<String>> = std::cell::RefCell::new(None); }
+
 fn die(code: i32, msg: String) -> ! {
-    eprintln!("vx: {}", msg);
+    // `[fn=<id>]` tells the driver which extracted function could not be placed (it may stub it and go on)
+    let f = CURRENT_FN.with(|c| c.borrow().clone());
+    match f { Some(id) => eprintln!("vx: {} [fn={}]", msg, id), None => eprintln!("vx: {}", msg) }
     exit(code)
 }
 
@@ -291,6 +295,8 @@ struct StmtInfo {
     start: usize,
     end: usize,
     is_tail_value: bool,
+    // for a `return EXPR;` statement: byte range of EXPR
+    ret_expr: Option<(usize, usize)>,
 }
 
 #[derive(Default)]
@@ -390,7 +396,11 @@ impl<'a, 'ast> Visit<'ast> for Scanner<'a> {
         for (k, st) in b.stmts.iter().enumerate() {
             let (s, e) = self.src.range(st.span());
             let is_tail_value = k + 1 == n && matches!(st, syn::Stmt::Expr(_, None));
-            self.scan.stmt_stack.push(StmtInfo { start: s, end: e, is_tail_value });
+            let ret_expr = match st {
+                syn::Stmt::Expr(syn::Expr::Return(r), _) => r.expr.as_ref().map(|x| self.src.range(x.span())),
+                _ => None,
+            };
+            self.scan.stmt_stack.push(StmtInfo { start: s, end: e, is_tail_value: is_tail_value && ret_expr.is_none(), ret_expr });
             if let syn::Stmt::Local(l) = st {
                 let mut ids = vec![];
                 pat_idents(&l.pat, &mut ids);
@@ -559,6 +569,9 @@ fn main() {
     let mut mapf = None;
     let mut mode = "N".to_string();
     let mut vacuity = false;
+    // functions whose body is replaced by a trusted stub (contract kept): used by the driver to keep the rest of a
+    // unit verifiable when one function no longer fits the shim / its anchors (that function is then undecided)
+    let mut stub: Vec<String> = vec![];
     let mut i = 1;
     while i < args.len() {
         match args[i].as_str() {
@@ -568,6 +581,7 @@ fn main() {
             "--map" => { mapf = Some(PathBuf::from(&args[i + 1])); i += 2; }
             "--mode" => { mode = args[i + 1].clone(); i += 2; }
             "--vacuity" => { vacuity = true; i += 1; }
+            "--stub" => { stub = args[i + 1].split(',').map(|x| x.to_string()).collect(); i += 2; }
             a => die(4, format!("unknown argument {}", a)),
         }
     }
@@ -593,12 +607,14 @@ fn main() {
     for it in &items {
         match it {
             TItem::Raw(t, origin, l0) => {
+                CURRENT_FN.with(|c| *c.borrow_mut() = None);
                 ob.push(t, json!({"kind": "shim", "origin": origin, "origin_line": l0}));
             }
             TItem::Extract(r) => {
                 let file = r.attrs.get("file").unwrap();
                 let name = r.attrs.get("fn").unwrap_or_else(|| die(4, "extract without fn=".into()));
                 let id = r.attrs.get("id").cloned().unwrap_or(name.clone());
+                CURRENT_FN.with(|c| *c.borrow_mut() = Some(id.clone()));
                 let tags = r.attrs.get("tags").cloned().unwrap_or_default();
                 let body_tags = r.attrs.get("body_tags").cloned().unwrap_or(tags.clone());
                 let src = &files[file];
@@ -637,8 +653,10 @@ fn main() {
                 }
                 let mut sig_sec = None;
                 let mut spec_secs = vec![];
+                let stubbed = stub.contains(&id);
                 for s in &r.sections {
                     let stags = s.tags.clone().unwrap_or(tags.clone());
+                    if stubbed && s.kind != "sig" && s.kind != "spec" { continue; }
                     match s.kind.as_str() {
                         "sig" => sig_sec = Some(s.clone()),
                         "spec" => spec_secs.push(s.clone()),
@@ -687,6 +705,14 @@ fn main() {
                                     let st = scan.calls.get(nm).and_then(|v| v.get(occ)).unwrap_or_else(|| die(3, format!("lost-anchor: call {} #{} not found in {}", nm, occ, id)));
                                     if what == "before_call" {
                                         edits.push((st.start, st.start, seq, format!("{}\n", s.text), meta));
+                                    } else if let Some((xa, xb)) = st.ret_expr {
+                                        // R7 for `return EXPR;`: `let __r = EXPR; <ghost>; return __r;`
+                                        edits.push((st.start, st.start, seq, "let __r = ".to_string(), json!({"kind": "rewrite", "rule": "R7", "fn": id, "tags": body_tags})));
+                                        seq += 1;
+                                        // drop the `return` keyword in front of EXPR, keep EXPR verbatim
+                                        edits.push((st.start, xa, seq, String::new(), json!({"kind": "rewrite", "rule": "R7", "fn": id, "tags": body_tags})));
+                                        seq += 1;
+                                        edits.push((xb, st.end, seq, format!(";\n{}\nreturn __r;", s.text), meta));
                                     } else if st.is_tail_value {
                                         // R7
                                         edits.push((st.start, st.start, seq, "let __r = ".to_string(), json!({"kind": "rewrite", "rule": "R7", "fn": id, "tags": body_tags})));
@@ -727,9 +753,22 @@ fn main() {
                 // emit
                 let sig = sig_sec.unwrap_or_else(|| die(4, format!("extract {} without //@sig", id)));
                 let fn_out_start = ob.line;
+                if stubbed {
+                    ob.push("#[verifier::external_body] // STUBBED by the driver: body not verified in this run\n", json!({"kind": "stub", "fn": id, "tags": tags}));
+                }
                 ob.push(&sig.text, json!({"kind": "sig", "fn": id, "tags": tags}));
                 for s in &spec_secs {
                     ob.push(&s.text, json!({"kind": "spec", "fn": id, "tags": s.tags.clone().unwrap_or(tags.clone())}));
+                }
+                if stubbed {
+                    ob.push("{ unimplemented!() }\n", json!({"kind": "stub", "fn": id, "tags": tags}));
+                    fns.push(json!({
+                        "id": id, "fn": name, "verus_name": sig.text.split("fn ").nth(1).map(|r| r.chars().take_while(|c| c.is_alphanumeric() || *c == '_').collect::<String>()).unwrap_or(name.clone()),
+                        "file": file, "tags": tags, "stubbed": true,
+                        "src_line_start": src.line_of(sig_a), "src_line_end": src.line_of(bc_end), "source_sig": sig_text,
+                        "body": &src.text[bo..bc_end], "out_start": fn_out_start, "out_end": ob.line, "loops": scan.loops.len(), "rewrites": Vec::<serde_json::Value>::new(),
+                    }));
+                    continue;
                 }
                 let mut pos = bo;
                 for (a, b, _s, t, meta) in &edits {
